@@ -20,7 +20,7 @@ theorem sumTo_add (m n : Nat) (f : Nat → K) :
     sumTo (m + n) f = sumTo m f + sumTo n (fun j => f (m + j)) := by
   simp [sumTo, List.range_add, List.map_map, Function.comp_def]
 
-theorem sumTo_congr (n : Nat) (f g : Nat → K) (h : ∀ j, j < n → f j = g j) : sumTo n f = sumTo n g := by
+theorem rhs_sumTo_congr (n : Nat) (f g : Nat → K) (h : ∀ j, j < n → f j = g j) : sumTo n f = sumTo n g := by
   unfold sumTo
   congr 1
   exact List.map_congr_left fun j hj => h j (List.mem_range.mp hj)
@@ -29,7 +29,7 @@ theorem sumTo_zero (n : Nat) : sumTo n (fun _ => (0 : K)) = 0 := by
   simp [sumTo]
 
 theorem sumTo_eq_zero (n : Nat) (f : Nat → K) (h : ∀ j, j < n → f j = 0) : sumTo n f = 0 := by
-  rw [sumTo_congr n f (fun _ => 0) h, sumTo_zero]
+  rw [rhs_sumTo_congr n f (fun _ => 0) h, sumTo_zero]
 
 /-- a vector of length `n` is the list of its `getD` values -/
 theorem list_eq_range_map (v : List K) : v = (List.range v.length).map fun j => v.getD j 0 := by
@@ -46,7 +46,7 @@ theorem dotL_range_map (n : Nat) (g : Nat → K) (v : List K) (hv : v.length = n
   conv_lhs => rw [e]
   rw [List.zipWith_map, List.zipWith_self]
 
-theorem matVec_ofFn (r c : Nat) (F : Nat → Nat → K) (v : List K) (hv : v.length = c) :
+theorem rhs_matVec_ofFn (r c : Nat) (F : Nat → Nat → K) (v : List K) (hv : v.length = c) :
     matVec (ofFn r c F) v = (List.range r).map fun i => sumTo c fun j => F i j * v.getD j 0 := by
   unfold matVec ofFn
   rw [List.map_map]
@@ -250,7 +250,7 @@ theorem csSorted_ids (N : Net L K) (h : N.ids.Nodup) : N.csSorted.map (·.id) = 
 theorem csSorted_length (N : Net L K) (h : N.ids.Nodup) : N.csSorted.length = N.nC := by
   unfold Net.nC; rw [← csSorted_ids N h]; simp
 
-theorem csIds_nodup (N : Net L K) (h : N.ids.Nodup) : N.csIds.Nodup := by
+theorem rhs_csIds_nodup (N : Net L K) (h : N.ids.Nodup) : N.csIds.Nodup := by
   unfold Net.csIds
   rw [nodup_sortL]
   unfold Net.cs
@@ -282,7 +282,7 @@ theorem rhsNode_mapElems (N : Net L K) (f : Branch L K → Elem K) (hids : N.ids
 /-- the published sources are duplicate-free -/
 theorem ssSources_nodup (N : Net L K) (lvals : ValDict K) (hids : N.ids.Nodup) : (ssSources N lvals).Nodup := by
   unfold ssSources
-  refine List.Nodup.append (csIds_nodup N hids) ((vsIds_nodup N hids).filter _) ?_
+  refine List.Nodup.append (rhs_csIds_nodup N hids) ((vsIds_nodup N hids).filter _) ?_
   intro a ha hb
   exact csIds_not_vsIds N hids ha (List.mem_filter.mp hb).1
 
@@ -319,7 +319,7 @@ theorem qs_node_row (N : Net L K) (lvals : ValDict K) (hids : N.ids.Nodup)
   have h1 : sumTo (ssNInputs N lvals) (fun j => Mx.get (ssQS N lvals) i j * u.getD j 0)
       = sumTo src.length (fun j => (src[j]?).elim 0 (fun id => G id j)) := by
     rw [hlen]
-    apply sumTo_congr
+    apply rhs_sumTo_congr
     intro j hj
     rw [get_ssQS N lvals hi (hlen ▸ hj), get_ssQ, hn]
     have hc := colsS_getD N lvals hids hkeys j
@@ -342,7 +342,7 @@ theorem qs_node_row (N : Net L K) (lvals : ValDict K) (hids : N.ids.Nodup)
       List.getElem?_eq_none (by rw [hlenC]; unfold Net.nC; omega)
     rw [hF]
     simp only [G, hb, Option.getD_some, this, zero_mul]
-  have hnd : (N.csSorted.map (·.id)).Nodup := by rw [csSorted_ids N hids]; exact csIds_nodup N hids
+  have hnd : (N.csSorted.map (·.id)).Nodup := by rw [csSorted_ids N hids]; exact rhs_csIds_nodup N hids
   have hG : ∀ b ∈ N.csSorted, F b.id = N.Qentry b n * u.getD ((idxOf? b.id src).getD 0) 0 := by
     intro b hb
     have hmem : b.id ∈ N.csIds := by rw [← csSorted_ids N hids]; exact List.mem_map_of_mem hb
@@ -405,7 +405,7 @@ theorem dq_node_row (N : Net L K) (cvals lvals : ValDict K) {Delta : List (List 
   have h1 : sumTo cvals.length (fun k => Mx.get (ssDQ N cvals lvals Delta) i k * w.getD k 0)
       = sumTo cvals.keys.length (fun k => (cvals.keys[k]?).elim 0 (fun id => G id k)) := by
     rw [← hkl]
-    apply sumTo_congr
+    apply rhs_sumTo_congr
     intro k hk
     have hks : k < ssNStates N cvals lvals := by unfold ssNStates; omega
     rw [get_ssDQ N cvals lvals Delta hi hks, if_pos hk, get_Delta hD, hn]
@@ -429,7 +429,7 @@ theorem colsL_getElem? (N : Net L K) (lvals : ValDict K) (hkeys : ∀ id ∈ lva
   obtain ⟨k, hk, _, _⟩ := idxOf?_of_mem (hkeys a ha)
   simp [hk]
 
-theorem idxOf?_getElem {α : Type} [DecidableEq α] (l : List α) (hl : l.Nodup) {r : Nat} (hr : r < l.length) :
+theorem idxOf?_getElem_rhs {α : Type} [DecidableEq α] (l : List α) (hl : l.Nodup) {r : Nat} (hr : r < l.length) :
     idxOf? l[r] l = some r := by
   induction l generalizing r with
   | nil => simp at hr
@@ -452,7 +452,7 @@ theorem idxOf?_eq_some_iff_getElem {α : Type} [DecidableEq α] (l : List α) (h
     rw [List.getElem?_eq_getElem hlt] at hget
     exact (Option.some.inj hget).symm
   · intro e
-    have := idxOf?_getElem l hl hr
+    have := idxOf?_getElem_rhs l hl hr
     rw [← e, hk] at this
     exact Option.some.inj this
 
@@ -471,7 +471,7 @@ theorem qs_vs_row (N : Net L K) (lvals : ValDict K) (hids : N.ids.Nodup)
   have h1 : sumTo (ssNInputs N lvals) (fun j => Mx.get (ssQS N lvals) (N.nN + r) j * u.getD j 0)
       = sumTo src.length (fun j => (src[j]?).elim 0 (fun id => G id j)) := by
     rw [hlen]
-    apply sumTo_congr
+    apply rhs_sumTo_congr
     intro j hj
     rw [get_ssQS N lvals hi (hlen ▸ hj), get_ssQ, hnone]
     have hc := colsS_getD N lvals hids hkeys j
@@ -551,7 +551,7 @@ theorem dq_vs_row (N : Net L K) (cvals lvals : ValDict K) {Delta : List (List K)
   have h2 : sumTo lvals.keys.length
       (fun j => Mx.get (ssDQ N cvals lvals Delta) (N.nN + r) (cvals.length + j) * w.getD (cvals.length + j) 0)
       = sumTo lvals.keys.length (fun j => (lvals.keys[j]?).elim 0 (fun id => G id j)) := by
-    apply sumTo_congr
+    apply rhs_sumTo_congr
     intro j hj
     have hjs : cvals.length + j < ssNStates N cvals lvals := by
       unfold ssNStates; rw [colsL_length N lvals hkeys]; omega
@@ -766,13 +766,13 @@ theorem vs_branch_identity {N : Net L K} {cvals lvals : ValDict K} (h : RLC N cv
     | norton Z V => simp [hf, setSource, hm, he, Elem.Vval]
     | thevenin Y I => simp [he, Elem.isIdealVS] at hvs
 
-theorem matVec_ofFn' (r c : Nat) (F : Nat → Nat → K) (v : List K) (hv : v.length = c) :
+theorem rhs_matVec_ofFn' (r c : Nat) (F : Nat → Nat → K) (v : List K) (hv : v.length = c) :
     matVec (ofFn r c F) v
       = (List.range r).map fun i => sumTo c fun j => Mx.get (ofFn r c F) i j * v.getD j 0 := by
-  rw [matVec_ofFn r c F v hv]
+  rw [rhs_matVec_ofFn r c F v hv]
   apply List.map_congr_left
   intro i hi
-  apply sumTo_congr
+  apply rhs_sumTo_congr
   intro j hj
   rw [get_ofFn F (List.mem_range.mp hi) hj]
 
@@ -796,10 +796,10 @@ theorem subst_mnaB {N : Net L K} {cvals lvals : ValDict K} {Delta : List (List K
   have hk := substElem_keeps h (ssSources N lvals) u w
   have e1 : matVec (ssQS N lvals) u = (List.range N.nY).map fun i =>
       sumTo (ssNInputs N lvals) fun j => Mx.get (ssQS N lvals) i j * u.getD j 0 :=
-    matVec_ofFn' _ _ _ u hu
+    rhs_matVec_ofFn' _ _ _ u hu
   have e2 : matVec (ssDQ N cvals lvals Delta) w = (List.range N.nY).map fun i =>
       sumTo (ssNStates N cvals lvals) fun j => Mx.get (ssDQ N cvals lvals Delta) i j * w.getD j 0 :=
-    matVec_ofFn' _ _ _ w hw
+    rhs_matVec_ofFn' _ _ _ w hw
   rw [e1, e2]
   unfold Mx.vecAdd
   rw [List.zipWith_map, List.zipWith_self]
